@@ -221,6 +221,28 @@ def transposition():
     return n
 
 
+def section_totals():
+    """TOTAL_AX of contracts/render.py (frame facts of total(K, M, n) = sum of len(M[K[j]]) for j < n): every key list over 3 section names of length <= 3, every map into lists of
+    length <= 2, computed in Python and compared with the three facts"""
+    global bad
+    names = [0, 1, 2]; n = 0
+    keylists = [tuple(c) for k in range(4) for c in itertools.product(names, repeat=k)]
+    lens = list(itertools.product(range(3), repeat=3))          # len(M[name]) for the three names
+    tot = lambda K, L, m: sum(L[K[j]] for j in range(m))
+    for K in keylists:
+        nod = len(set(K)) == len(K)
+        for L in lens:
+            for sx in names:
+                for lv in range(3):
+                    L2 = list(L); L2[sx] = lv
+                    for m in range(len(K) + 1):
+                        n += 1
+                        if sx not in K and tot(K, L2, m) != tot(K, L, m): bad += 1; print('TOTAL frame-1 FALSE', K, L, sx, lv, m)
+                        if tot(K + (sx,), L, m) != tot(K, L, m): bad += 1; print('TOTAL frame-2 FALSE', K, L, sx, m)
+                    if nod and sx in K and tot(K, L2, len(K)) != tot(K, L, len(K)) - L[sx] + lv: bad += 1; print('TOTAL frame-3 FALSE', K, L, sx, lv)
+    return n
+
+
 def closure():
     """CLOSED_AX: every parent map over 3 nodes (+ null, cyclic ones included) x every subset of the nodes (and null) given as a list constant; closedL and the
     skolem skc interpreted by the definition computed in Python (skc = a counterexample of closedness where there is one)"""
@@ -301,6 +323,6 @@ def defined_predicates():
 
 
 if __name__ == '__main__':
-    n1 = graph(); n2 = deps(); n3 = lists(); n4 = closure(); n5 = defined_predicates(); n6 = transposition(); print(f'closure axiom instances checked: {n4}; defined predicates (inj / disj / uniq): {n5}; transposition: {n6}')
+    n1 = graph(); n2 = deps(); n3 = lists(); n4 = closure(); n5 = defined_predicates(); n6 = transposition(); n7 = section_totals(); print(f'closure axiom instances checked: {n4}; defined predicates (inj / disj / uniq): {n5}; transposition: {n6}; section totals: {n7}')
     print(f'axiom instances checked: graph {n1}, dependency {n2}, list {n3}; false instances: {bad}')
     sys.exit(1 if bad else 0)
